@@ -113,8 +113,10 @@ def _draw_ops(ch: Any, n_ops: int, model_for_preconditions: MockerModel, allow_b
                    for i in ids]
             if e in m.patches:
                 for el in els:
-                    if e in m.patches or True:
-                        m.serve(e, el['method'], el['params'], el['id'])
+                    if e not in m.patches:
+                        break
+                    if m.serve(e, el['method'], el['params'], el['id'])['kind'] == 'callback_raises':
+                        break
             ops.append({'op': 'batch', 'endpoint': e, 'elements': els})
     return ops
 
@@ -135,6 +137,12 @@ def _apply_config(mocker: PjRpcMocker, model: MockerModel, op: Dict[str, Any]) -
 
 def _judge_reply(w: World, exp: Dict[str, Any], got: Tuple[str, Any], ctx: Dict[str, Any], what: str) -> None:
     """got: ('response', Response) | ('value', v) | ('raise', exc)"""
+    if exp['kind'] == 'callback_raises':
+        from ..ref.mocker import CallbackTrouble
+        if got[0] != 'raise' or not isinstance(got[1], CallbackTrouble):
+            w.violate('C20.reply', f'{what}: the callback patch #{exp.get("patch")} raises; expected its exception at the '
+                      f'caller, got {_d(got)}', **ctx)
+        return
     if exp['kind'] == 'refused':
         if got[0] != 'raise' or not isinstance(got[1], ConnectionRefusedError):
             w.violate('C20.unpatched_endpoint', f'{what}: an endpoint without patches (passthrough off) must be refused, '
@@ -193,6 +201,8 @@ def _expected_for_request(model: MockerModel, op: Dict[str, Any]) -> List[Dict[s
             out.append({'kind': 'open'})
             continue
         out.append(model.serve(e, el['method'], el['params'], el['id']))
+        if out[-1]['kind'] == 'callback_raises':
+            break    # the exception ends the processing of the batch: later elements are not served
     return out
 
 
@@ -263,6 +273,12 @@ def _judge_request(w: World, op: Dict[str, Any], exps: List[Dict[str, Any]], got
                 w.violate('C20.unpatched_endpoint', f'{what}: passthrough batch failed: {_d(gots[0])}', **ctx)
             return
         _judge_reply(w, exps[0], gots[0], ctx, what)
+        return
+    if any(e['kind'] == 'callback_raises' for e in exps):
+        from ..ref.mocker import CallbackTrouble
+        if len(gots) != 1 or gots[0][0] != 'raise' or not isinstance(gots[0][1], CallbackTrouble):
+            w.violate('C20.reply', f'{what}: a callback patch raises for one element; expected its exception at the '
+                      f'caller, got {_d(gots[0])}', **ctx)
         return
     if len(gots) == 1 and gots[0][0] == 'raise':
         w.violate('C20.reply', f'{what}: batch failed: {_d(gots[0])}', exc=type(gots[0][1]).__name__, **ctx)
